@@ -66,6 +66,7 @@ static const char *resname[] = { "none", "sid", "ticket", "psk13", "extpsk" };
 static const int tls_sizes[] = { 1, 100, 16383, 16384, 16385, 40000, 200000 };
 static const int dtls_sizes[] = { 1, 100, 1000, 1200 };
 #define PLAN_SPLIT 0x80
+#define PLAN_PAD 0x200      /* TLS 1.3: both stacks pad application records to 1024-byte blocks (padding runs >= 256 zero octets) */
 #define PLAN_LONG 0x100     /* more than 256 records per direction under one key (record sequence numbers cross a byte boundary) */
 static const int chunks[] = { 0, 3, 17, 1399, 4096, 16389 };
 
@@ -695,6 +696,7 @@ static int run_connection(conn_t *k, const cfg_t *c, SSL_CTX *ctx, sslKeys_t *mk
         /* the authenticating side must actually have seen the peer certificate */
         if (c->role == R_MXC && !(connno && R->ores)) { X509 *pc = SSL_get_peer_certificate(k->O); if (!pc) fail("parameter-mismatch", "client-certificate", "openssl server completed without a client certificate although it was required"); else { X509_free(pc); if (SSL_get_verify_result(k->O) != X509_V_OK) fail("parameter-mismatch", "client-certificate", "openssl verify result %ld", SSL_get_verify_result(k->O)); } }
     }
+    if ((plan & PLAN_PAD) && c->ver == MX_TLS13) { SSL_set_block_padding(k->O, 1024); MX_ENTER(); matrixSslSetTls13BlockPadding(k->M.ssl, 1024); MX_LEAVE(); STAT("padded_tls13_connections", 1); }
     if (data_phase(k, plan) < 0) return -1;
     shutdown_both(k);
     return 0;
@@ -859,6 +861,7 @@ static void add_cfg(cfg_t c)
     if (MX_IS_DTLS(c.ver)) c.plan = vf_thorough ? (0xf | PLAN_SPLIT) : ((1 << (i % 4)) | (1 << ((i + 1) % 4)) | ((i % 3) ? 0 : PLAN_SPLIT));
     else c.plan = vf_thorough ? (0x7f | PLAN_SPLIT) : ((1 << (i % 7)) | (1 << ((i + 3) % 7)) | (1 << ((i + 5) % 7)) | ((i % 3) ? 0 : PLAN_SPLIT));
     if (i % (vf_thorough ? 4 : 7) == 0) c.plan |= PLAN_LONG;
+    if (c.ver == MX_TLS13 && (i % 2) == 0) c.plan |= PLAN_PAD;
     c.chunk = force_chunk >= 0 ? force_chunk : chunks[(i / 2) % 6];
     if (ncf == capcf) { capcf = capcf ? capcf * 2 : 1024; CF = realloc(CF, capcf * sizeof *CF); }
     CF[ncf++] = c;
